@@ -175,4 +175,124 @@ __CPROVER_ensures(!nv_thrown ==> __CPROVER_return_value == self)
 #define NV_CONTRACT_parameter_assign_t64 NV_CONTRACT_PARAM_PAIR(1)
 #define NV_CONTRACT_parameter_assign_tf  NV_CONTRACT_PARAM_PAIR(NV_F2I_DEFINED(value._0) && NV_F2I_DEFINED(value._1))
 
+/* ------------------------------------------------------------------ ::update(name, enum_t&, string)
+ * "enum: v in domain list".  Strings are values of an uninterpreted sort (only equality matters here). */
+#define NV_MAXN 1000000   /* symbolic length bound used only to keep n * sizeof inside size_t */
+#define NV_STRS_OK(v) ((v).n >= 0 && (v).n <= NV_MAXN && __CPROVER_is_fresh((v).p, ((v).n > 0 ? (v).n : 1) * sizeof(struct nv_str)))
+int64_t nv_g_str;    /* ghost: an arbitrary position of the domain list, fixed before the call */
+int64_t nv_w_find;   /* witness: the position std::find returned */
+/* ASSUMED contract of std::find(first, last, value): the first position whose element equals value, else last
+ * (stated at the ghost index; stub body, not an ensures over a nondeterministic pointer) */
+static struct nv_str* nv_find_str(struct nv_str* begin, struct nv_str* end, const struct nv_str* value)
+{
+  int64_t n = end - begin, idx = nv_nondet_int64_t();
+  __CPROVER_assume(0 <= idx && idx <= n);
+  if (idx < n) __CPROVER_assume(begin[idx].id == value->id);
+  if (0 <= nv_g_str && nv_g_str < idx) __CPROVER_assume(begin[nv_g_str].id != value->id);
+  nv_w_find = idx;
+  return begin + idx;
+}
+#define NV_ENUM_HAS(e, j, s) (0 <= (j) && (j) < (e).m_domain.n && (e).m_domain.p[j].id == (s).id)
+#define NV_POST_ENUM(G, e, s) \
+__CPROVER_ensures(((G) && !nv_thrown) ==> ((e).m_value.id == (s).id && NV_ENUM_HAS(e, nv_w_find, s))) \
+__CPROVER_ensures(((G) && nv_thrown) ==> ((e).m_value.id == NV_OLD((e).m_value.id))) \
+__CPROVER_ensures(((G) && nv_thrown && 0 <= nv_g_str && nv_g_str < (e).m_domain.n) ==> (e).m_domain.p[nv_g_str].id != (s).id) \
+__CPROVER_ensures((e).m_domain.n == NV_OLD((e).m_domain.n) && (e).m_domain.p == NV_OLD((e).m_domain.p))
+#define NV_CONTRACT_update_enum \
+__CPROVER_requires(!nv_thrown && __CPROVER_is_fresh(param, sizeof(*param)) && NV_STRS_OK(param->m_domain)) \
+__CPROVER_assigns(nv_thrown, nv_w_find, param->m_value) \
+NV_POST_ENUM(1, *param, value) \
+__CPROVER_ensures(!nv_thrown ==> __CPROVER_return_value == param)
+
+/* ------------------------------------------------------------------ parameter_t constructors
+ * "constructors go through the same update, so an out-of-domain default throws": a constructed parameter holds the
+ * given record, of the given kind, and that record satisfies its domain predicate. */
+#define NV_CTOR_REQ(WF) __CPROVER_requires(!nv_thrown && __CPROVER_is_fresh(self, sizeof(*self)) && (WF))
+#define NV_CONTRACT_CTOR_R(K, A, FIN, EQ) \
+NV_CTOR_REQ(NV_RANGE_WF(param)) \
+__CPROVER_assigns(nv_thrown, __CPROVER_object_whole(self)) \
+__CPROVER_ensures(nv_thrown == !NV_DOM_R(FIN, param, param.m_value)) \
+__CPROVER_ensures(!nv_thrown ==> (self->m_name.id == name.id && self->m_storage.index == (K) && \
+    EQ(self->m_storage.A.m_value, param.m_value) && EQ(self->m_storage.A.m_min, param.m_min) && EQ(self->m_storage.A.m_max, param.m_max) && \
+    self->m_storage.A.m_mincomp.index == param.m_mincomp.index && self->m_storage.A.m_maxcomp.index == param.m_maxcomp.index && \
+    NV_DOM_R(FIN, self->m_storage.A, self->m_storage.A.m_value)))
+#define NV_CONTRACT_CTOR_P(K, A, FIN, EQ) \
+NV_CTOR_REQ(NV_PAIR_WF(param)) \
+__CPROVER_assigns(nv_thrown, __CPROVER_object_whole(self)) \
+__CPROVER_ensures(nv_thrown == !NV_DOM_P(FIN, param, param.m_value1, param.m_value2)) \
+__CPROVER_ensures(!nv_thrown ==> (self->m_name.id == name.id && self->m_storage.index == (K) && \
+    EQ(self->m_storage.A.m_value1, param.m_value1) && EQ(self->m_storage.A.m_value2, param.m_value2) && \
+    EQ(self->m_storage.A.m_min, param.m_min) && EQ(self->m_storage.A.m_max, param.m_max) && \
+    self->m_storage.A.m_mincomp.index == param.m_mincomp.index && self->m_storage.A.m_valcomp.index == param.m_valcomp.index && \
+    self->m_storage.A.m_maxcomp.index == param.m_maxcomp.index && \
+    NV_DOM_P(FIN, self->m_storage.A, self->m_storage.A.m_value1, self->m_storage.A.m_value2)))
+#define NV_CONTRACT_parameter_ctor_ir NV_CONTRACT_CTOR_R(2, a2, NV_FIN_I, NV_EQ_I)
+#define NV_CONTRACT_parameter_ctor_fr NV_CONTRACT_CTOR_R(3, a3, NV_FIN_F, NV_EQ_F)
+#define NV_CONTRACT_parameter_ctor_ip NV_CONTRACT_CTOR_P(4, a4, NV_FIN_I, NV_EQ_I)
+#define NV_CONTRACT_parameter_ctor_fp NV_CONTRACT_CTOR_P(5, a5, NV_FIN_F, NV_EQ_F)
+#define NV_CONTRACT_parameter_ctor_str \
+NV_CTOR_REQ(1) \
+__CPROVER_assigns(__CPROVER_object_whole(self)) \
+__CPROVER_ensures(!nv_thrown && self->m_name.id == name.id && self->m_storage.index == 6 && self->m_storage.a6.id == value.id)
+#define NV_CONTRACT_parameter_ctor_enum \
+NV_CTOR_REQ(NV_STRS_OK(param.m_domain)) \
+__CPROVER_assigns(nv_thrown, nv_w_find, __CPROVER_object_whole(self)) \
+__CPROVER_ensures(!nv_thrown ==> (self->m_name.id == name.id && self->m_storage.index == 1 && \
+    self->m_storage.a1.m_value.id == param.m_value.id && self->m_storage.a1.m_domain.p == param.m_domain.p && \
+    self->m_storage.a1.m_domain.n == param.m_domain.n && NV_ENUM_HAS(self->m_storage.a1, nv_w_find, param.m_value))) \
+__CPROVER_ensures((nv_thrown && 0 <= nv_g_str && nv_g_str < param.m_domain.n) ==> param.m_domain.p[nv_g_str].id != param.m_value.id)
+
+/* ------------------------------------------------------------------ parameter_t::operator=(string)
+ * ASSUMED: std::stoll / std::stod / ::split_pair are deterministic functions of the string (uninterpreted here: which
+ * strings parse, and to what, is the STL's business -- DESIGN C19 X); a string that does not parse throws
+ * (std::invalid_argument / std::out_of_range).  The contract is then the numeric one with x = the parsed number. */
+struct nv_tup_str { struct nv_str _0, _1; };
+_Bool __CPROVER_uninterpreted_stoll_ok(int64_t);
+int64_t __CPROVER_uninterpreted_stoll(int64_t);
+_Bool __CPROVER_uninterpreted_stod_ok(int64_t);
+double __CPROVER_uninterpreted_stod(int64_t);
+int64_t __CPROVER_uninterpreted_split1(int64_t);
+int64_t __CPROVER_uninterpreted_split2(int64_t);
+#define NV_LL_OK(s) __CPROVER_uninterpreted_stoll_ok((s).id)
+#define NV_LL(s) __CPROVER_uninterpreted_stoll((s).id)
+#define NV_D_OK(s) __CPROVER_uninterpreted_stod_ok((s).id)
+#define NV_D(s) __CPROVER_uninterpreted_stod((s).id)
+#define NV_S1(s) __CPROVER_uninterpreted_split1((s).id)
+#define NV_S2(s) __CPROVER_uninterpreted_split2((s).id)
+static int64_t nv_stoll(const struct nv_str* s) { if (!NV_LL_OK(*s)) { nv_thrown = 1; return 0; } return NV_LL(*s); }
+static double nv_stod(const struct nv_str* s) { if (!NV_D_OK(*s)) { nv_thrown = 1; return 0.0; } return NV_D(*s); }
+static struct nv_tup_str nv_split_pair(const struct nv_str* s) { struct nv_tup_str r; r._0.id = NV_S1(*s); r._1.id = NV_S2(*s); return r; }
+#define NV_LL1(s) __CPROVER_uninterpreted_stoll(NV_S1(s))
+#define NV_LL2(s) __CPROVER_uninterpreted_stoll(NV_S2(s))
+#define NV_LLP_OK(s) (__CPROVER_uninterpreted_stoll_ok(NV_S1(s)) && __CPROVER_uninterpreted_stoll_ok(NV_S2(s)))
+#define NV_D1(s) __CPROVER_uninterpreted_stod(NV_S1(s))
+#define NV_D2(s) __CPROVER_uninterpreted_stod(NV_S2(s))
+#define NV_DP_OK(s) (__CPROVER_uninterpreted_stod_ok(NV_S1(s)) && __CPROVER_uninterpreted_stod_ok(NV_S2(s)))
+
+#define NV_CONTRACT_parameter_assign_str \
+__CPROVER_requires(!nv_thrown && __CPROVER_is_fresh(self, sizeof(*self)) && NV_ST_WF(self->m_storage)) \
+__CPROVER_requires(self->m_storage.index != 1 || NV_STRS_OK(self->m_storage.a1.m_domain)) \
+__CPROVER_assigns(nv_thrown, nv_w_find, self->m_storage.a1.m_value, self->m_storage.a2.m_value, self->m_storage.a3.m_value, \
+                  self->m_storage.a4.m_value1, self->m_storage.a4.m_value2, self->m_storage.a5.m_value1, self->m_storage.a5.m_value2, \
+                  self->m_storage.a6) \
+__CPROVER_ensures(self->m_storage.index == NV_OLD(self->m_storage.index) && self->m_name.id == NV_OLD(self->m_name.id)) \
+__CPROVER_ensures(!nv_thrown ==> __CPROVER_return_value == self) \
+__CPROVER_ensures(self->m_storage.index == 0 ==> nv_thrown) \
+NV_POST_ENUM(self->m_storage.index == 1, self->m_storage.a1, value) \
+NV_POST_R(self->m_storage.index == 2, NV_FIN_I, NV_EQ_I, int64_t, NV_LL_OK(value), self->m_storage.a2, NV_LL(value)) \
+__CPROVER_ensures((self->m_storage.index == 2 && !NV_LL_OK(value)) ==> nv_thrown) \
+NV_POST_R(self->m_storage.index == 3, NV_FIN_F, NV_EQ_F, double, NV_D_OK(value), self->m_storage.a3, NV_D(value)) \
+__CPROVER_ensures((self->m_storage.index == 3 && !NV_D_OK(value)) ==> nv_thrown) \
+NV_POST_P(self->m_storage.index == 4, NV_FIN_I, NV_EQ_I, int64_t, NV_LLP_OK(value), self->m_storage.a4, NV_LL1(value), NV_LL2(value)) \
+__CPROVER_ensures((self->m_storage.index == 4 && !NV_LLP_OK(value)) ==> nv_thrown) \
+NV_POST_P(self->m_storage.index == 5, NV_FIN_F, NV_EQ_F, double, NV_DP_OK(value), self->m_storage.a5, NV_D1(value), NV_D2(value)) \
+__CPROVER_ensures((self->m_storage.index == 5 && !NV_DP_OK(value)) ==> nv_thrown) \
+__CPROVER_ensures(self->m_storage.index == 6 ==> (!nv_thrown && self->m_storage.a6.id == value.id)) \
+__CPROVER_ensures(self->m_storage.index != 1 ==> self->m_storage.a1.m_value.id == NV_OLD(self->m_storage.a1.m_value.id)) \
+__CPROVER_ensures(self->m_storage.index != 2 ==> NV_SAME_R(NV_EQ_I, self->m_storage.a2)) \
+__CPROVER_ensures(self->m_storage.index != 3 ==> NV_SAME_R(NV_EQ_F, self->m_storage.a3)) \
+__CPROVER_ensures(self->m_storage.index != 4 ==> NV_SAME_P(NV_EQ_I, self->m_storage.a4)) \
+__CPROVER_ensures(self->m_storage.index != 5 ==> NV_SAME_P(NV_EQ_F, self->m_storage.a5)) \
+__CPROVER_ensures(self->m_storage.index != 6 ==> self->m_storage.a6.id == NV_OLD(self->m_storage.a6.id))
+
 #endif
